@@ -390,7 +390,7 @@ func runC10(r *R) {
 	}
 
 	// ---- R2
-	r.Rule("C10-R2", "explicit panics reachable from the manifest parsing entry points are each justified in the exception table", 3)
+	r.Rule("C10-R2", "explicit panics reachable from the manifest parsing entry points are each justified in the exception table", 2)
 	entries := []string{
 		"(" + mfp + ".Manifest).Extract", "(*" + mfp + ".Manifest).StreamIter", "(*" + mfp + ".Manifest).FileSegmentIterByName",
 		"(*" + mfp + ".Manifest).BlockIterWithDuplicates", mfp + ".ParseBlockLocator", "(*" + mfp + ".ManifestStream).FileSegmentIterByName",
@@ -446,7 +446,7 @@ func runC10(r *R) {
 	r.Extra["C10-R2_functions_reachable"] = len(reachable)
 
 	// ---- R3
-	r.Rule("C10-R3", "errors, not partial results: Extract sets Text only when segment() succeeded; segment() returns at the first stream error; FileSystem publishes the root only when loadManifest returned nil", 3)
+	r.Rule("C10-R3", "errors, not partial results: Extract sets Text only when segment() succeeded; segment() returns at the first stream error; FileSystem publishes the root only when loadManifest returned nil", 2)
 	if fn := r.NeedFn("C10-R3", "("+mfp+".Manifest).Extract"); fn != nil {
 		segs := CallsIn(fn, "(*"+mfp+".Manifest).segment")
 		for _, st := range StoresToField(fn, mfp+".Manifest", "Text") {
@@ -571,7 +571,7 @@ func runC10(r *R) {
 	}
 
 	// ---- R6
-	r.Rule("C10-R6", "Extract subtree filter: a stream is emitted only under HasPrefix(k, srcpath+\"/\") ∨ k == srcpath, and the scan visits every stream (no early exit, whole slice)", 2)
+	r.Rule("C10-R6", "Extract subtree filter: a stream is emitted only under HasPrefix(k, srcpath+\"/\") ∨ k == srcpath, and the scan visits every stream (no early exit, whole slice)", 1)
 	extractFilterRule(r, "C10-R6")
 }
 
